@@ -22,7 +22,10 @@ RULE = ('three streams. paths: every string built from <= 5 components of {a, ab
         '{a, ab, sub, ., .., "", proj, projx, lib, init, ?, a;b} with/without leading/trailing "/", x 5 load-path '
         'settings (default, environment variable, relative --lua-path, absolute, ../lib) x 3 working directories x '
         'main named absolutely/relatively; tool.main([build ...]) under the same wrappers, canary files outside every '
-        'root. Each run: outcome / resolved path / probe sequence vs the extracted model, and the extracted monitor '
+        'root. graph: a main file and up to 10 library files (a, b, c, sub/a, sub/b, sub/sub/a, lib/a, lib/b, init, a/init), each '
+        'with 0-3 require() lines over those names (+ missing, .., "", /a, ./a, ...), 7 load-path settings, 3 working '
+        'directories: the complete sequence of isfile probes and opens of tool.main([build ...]) vs the model of the whole '
+        'recursion (Model/RequireWalk.v). Each run: outcome / resolved path / probe sequence vs the extracted model, and the extracted monitor '
         '(Spec only) on the recorded accesses. distinct+non-trivial = distinct (stream, string, placement, load path) '
         'whose run touched the file system beyond the named files')
 CLAIM = dict(
@@ -34,7 +37,9 @@ CLAIM = dict(
           "P8IncludeOutsideOfAllowedDirectory), C12_include_ok_spec; C12_require_contained (every candidate handed to "
           "os.path.isfile / open lies under the directory its load-path pattern names, for every string the filter "
           "lets through and every load path made of patterns DIR/NAME?SUFFIX), C12_require_contained_any_path, "
-          "C12_require_default_path (default path: under the requiring file's directory), C12_require_filter_spec; "
+          "C12_require_default_path (default path: under the requiring file's directory), C12_require_filter_spec, "
+          "C12_require_model_holds (for every package graph, file system, sane load path and depth, the trace of the "
+          "model of the whole _evaluate_require recursion satisfies the predicate the monitor evaluates); "
           "C12_abspath_location (the posixpath model's normpath/abspath preserve the POSIX location and leave no "
           "'..'); C12_monitor / C12_monitor_growing (soundness of the extracted monitors). "
           "C12_include_prefix_variant_refuted and C12_require_variants_refuted: the statements are false for the "
@@ -43,7 +48,8 @@ CLAIM = dict(
           "filter, the regex sources, PICO8_CART_PATHS, DEFAULT_LUA_PATH, split/replace characters are regenerated "
           "from the source and pinned (a reverted fix breaks a pin and the search replays the witness); the path "
           "functions are compared with posixpath on ~250,000 inputs; the resolution logic with file.from_file / "
-          "tool.main(build) in a sandbox tree with canary files; the Spec-only monitor runs on the recorded accesses."),
+          "tool.main(build) in a sandbox tree with canary files, incl. the complete probe/open trace of random package "
+          "graphs; the Spec-only monitor runs on the recorded accesses."),
     note=("Trusted: Coq kernel+VM, extraction, OCaml glue, the in-process wrappers around builtins.open / "
           "os.path.isfile / os.path.exists (harness/props/fsobs.py), the modelling of posixpath (correspondence-tested), "
           "POSIX resolution without symbolic links as the meaning of 'located under' (Spec/PathSpec.v). "
@@ -207,6 +213,26 @@ def generate(tier, rng):
             continue
         seen.add((r, lp, cwd, mode))
         yield {'kind': 'require', 'req': r, 'lp': lp, 'cwd': cwd, 'mode': mode}
+    # package graphs: the whole recursion of _evaluate_require
+    for _ in range(400 if quick else 6000):
+        yield gen_graph(rng)
+
+
+GRAPH_NAMES = ['a', 'b', 'c', 'sub/a', 'sub/b', 'sub/sub/a', 'lib/a', 'lib/b', 'init', 'a/init']
+GRAPH_REQS = ['a', 'b', 'c', 'a', 'b', 'sub/a', 'sub/b', 'lib/a', 'init', 'sub/sub/a', 'lib/b', 'missing', 'a/init', 'sub',
+              '..', '', '/a', './a', 'a/..', 'b.lua', 'sub/', '?', 'a;b']
+
+
+def gen_graph(rng):
+    files = {}
+    for name in GRAPH_NAMES:
+        if rng.random() < 0.9:
+            k = rng.choice([0, 0, 0, 1, 1, 2])
+            pool = GRAPH_REQS[:9] if rng.random() < 0.8 else GRAPH_REQS
+            files[name + '.lua'] = [rng.choice(pool) for _ in range(k)]
+    main = [rng.choice(GRAPH_REQS[:9] if rng.random() < 0.85 else GRAPH_REQS) for _ in range(rng.choice([1, 1, 2, 3]))]
+    return {'kind': 'graph', 'files': files, 'main': main, 'lp': rng.choice(LOAD_PATHS + ['default', 'rel']),
+            'cwd': rng.choice(['w/g', 'w', '']), 'mode': rng.choice(['abs', 'rel'])}
 
 
 def corpus_cases():
@@ -223,6 +249,10 @@ def corpus_cases():
     yield {'kind': 'include', 'cart': 'cartssub', 'mode': 'abs', 'cwd': 't', 'inc': '../x.lua'}
     yield {'kind': 'require', 'req': 'sub/ab', 'lp': 'default', 'cwd': 'w', 'mode': 'rel'}
     yield {'kind': 'require', 'req': '../a', 'lp': 'default', 'cwd': 'w/proj', 'mode': 'abs'}
+    # a package graph with a cycle, a file required twice under the same name from two directories, a nested miss
+    yield {'kind': 'graph', 'files': {'a.lua': ['b', 'sub/a'], 'b.lua': ['a'], 'sub/a.lua': ['a', 'b'], 'sub/b.lua': ['missing']},
+           'main': ['a', 'b', 'sub/b'], 'lp': 'default', 'cwd': 'w', 'mode': 'rel'}
+    yield {'kind': 'graph', 'files': {'a.lua': ['..'], 'lib/a.lua': []}, 'main': ['lib/a', 'a'], 'lp': 'rel', 'cwd': 'w/g', 'mode': 'abs'}
 
 
 # ---------------------------------------------------------------- implementation runs
@@ -301,6 +331,52 @@ def run_impl(case):
         if os.path.exists(out):
             os.remove(out)
         return obs
+    if case['kind'] == 'graph':
+        from pico8 import tool
+        from pico8.build import build
+        import shutil
+        G = S + '/w/g'
+        shutil.rmtree(G, ignore_errors=True)
+        cwd = os.path.join(S, case['cwd']) if case['cwd'] else S
+        main_abs = G + '/main.lua'
+        fsobs.write_file(main_abs, b'm0=0\n' + b''.join(b'require("%s")\n' % r.encode() for r in case['main']))
+        n = 0
+        for rel, reqs in sorted(case['files'].items()):
+            n += 1
+            fsobs.write_file(os.path.join(G, rel), b'g%d=%d\n' % (n, n) + b''.join(b'require("%s")\n' % r.encode() for r in reqs))
+        main_arg = main_abs if case['mode'] == 'abs' else os.path.relpath(main_abs, cwd)
+        out = S + '/out/g.p8'
+        if os.path.exists(out):
+            os.remove(out)
+        arg, env = load_path(case['lp'], S)
+        argv = ['build', out, '--lua', main_arg] + (['--lua-path', arg] if arg is not None else [])
+        obs = {'S': S, 'cwd': cwd, 'main_arg': main_arg, 'out': out,
+               'lp_eff': arg if arg is not None else (env if env is not None else build.DEFAULT_LUA_PATH)}
+        # the regular files of the sandbox as the model's isfile, and the require table by absolute path
+        files = []
+        for root, _, fs in os.walk(S):
+            for f in fs:
+                files.append(os.path.join(root, f))
+        obs['files'] = sorted(files)
+        table = {main_abs: case['main']}
+        for rel, reqs in case['files'].items():
+            table[os.path.join(G, rel)] = reqs
+        table[S + '/w/proj/sub/ab.lua'] = ['a']          # the one canary file that requires something
+        obs['table'] = table
+        with fsobs.environment(cwd=cwd, home=home, env={'PICO8_LUA_PATH': env}), fsobs.quiet():
+            with fsobs.Recorder() as rec:
+                try:
+                    rc = tool.main(argv)
+                    obs['outcome'] = 'OK' if rc == 0 else 'RC %s' % rc
+                except SystemExit as e:
+                    obs['outcome'] = 'EXIT %s' % (e.code,)
+                except Exception as e:  # noqa
+                    obs['outcome'] = 'ERR ' + lib.exc_name(e)
+        obs['events'] = rec.events
+        if os.path.exists(out):
+            os.remove(out)
+        shutil.rmtree(G, ignore_errors=True)
+        return obs
     raise ValueError(case['kind'])
 
 
@@ -323,7 +399,21 @@ def model_requests(case, obs):
                 'eff %s %s' % (h(obs['lp_arg']) if obs['lp_arg'] is not None else '~',
                                h(obs['lp_env']) if obs['lp_env'] is not None else '~'),
                 'cands %s %s %s' % (h(obs['main_arg']), h(obs['lp_eff']), h(case['req']))]
+    if case['kind'] == 'graph':
+        tbl = ';'.join('%s=%s' % (h(k), ','.join(h(r) for r in v) if v else '~') for k, v in sorted(obs['table'].items()))
+        return ['walk %s %s %s %s %s' % (h(obs['cwd']), h(obs['main_arg']), h(obs['lp_eff']), fsobs.hxlist(obs['files']), tbl or '~')]
     return []
+
+
+def graph_trace(obs):
+    """isfile probes and read-opens of required files, in order (the main file and OUT are named on the command line)"""
+    tr = []
+    for e in obs['events']:
+        if e[0] == 'p' and e[2] == 'isfile':
+            tr.append('p:' + fsobs.hx(e[1]))
+        elif e[0] == 'o' and e[2] == 'rb' and e[1] not in (obs['main_arg'], obs['out']):
+            tr.append('o:' + fsobs.hx(e[1]))
+    return ','.join(tr) if tr else '~'
 
 
 def compare(case, obs, answers):
@@ -350,6 +440,14 @@ def compare(case, obs, answers):
             got = obs['outcome']
         if answers[1] != got:
             return '#include %r from %r: implementation %s, model %s' % (obs['inc'], obs['cart_arg'], got, answers[1])
+        return None
+    if case['kind'] == 'graph':
+        tr, _, outcome = answers[0].partition(' ')
+        got = graph_trace(obs)
+        if tr != got:
+            return 'package graph %r: implementation trace %s, model trace %s' % (case['main'], got[:300], tr[:300])
+        if obs['outcome'] != outcome:
+            return 'package graph %r: implementation %s, model %s' % (case['main'], obs['outcome'], outcome)
         return None
     if case['kind'] == 'require':
         filt, eff, cands = answers
@@ -421,6 +519,8 @@ def signature(case, obs):
                     return 'C12/include/prefix-sibling'
                 return 'C12/include/other'
         return 'C12/include/escape-not-rejected'
+    if case['kind'] == 'graph':
+        return 'C12/require/graph'
     if case['kind'] == 'require':
         if case['req'] == '':
             return 'C12/require/empty-string'
@@ -454,7 +554,8 @@ def nontrivial_key(case, obs):
         return None
     named = {obs.get('cart_arg'), obs.get('main_arg'), obs.get('out')}
     if any(e[1] not in named for e in obs.get('events', [])):
-        return (case['kind'], case.get('inc') or case.get('req'), case.get('cart') or case.get('lp'), case['cwd'], case['mode'])
+        return (case['kind'], case.get('inc') or case.get('req') or repr((case.get('main'), sorted(case.get('files', {}).items()))),
+                case.get('cart') or case.get('lp'), case['cwd'], case['mode'])
     return None
 
 
@@ -484,7 +585,7 @@ def search(ctx, budget):
     t0 = time.time()
     viol, n = [], 0
     mod = __import__('props.c12', fromlist=['x'])
-    gen = (c for c in generate('thorough', rng) if c['kind'] != 'paths')
+    gen = (c for c in itertools.chain(corpus_cases(), generate('thorough', rng)) if c['kind'] != 'paths')
     try:
         while time.time() - t0 < budget and not viol:
             batch = list(itertools.islice(gen, 300))
